@@ -47,6 +47,12 @@ fn string_of(bytes: usize, width: usize, salt: usize) -> String {
     s
 }
 
+pub fn float_bit_patterns() -> Vec<u64> {
+    let mut f64s = F64_BITS.to_vec();
+    f64s.extend([0x7ff8000000000001, 0xfff0000000000001, 0x7ff7ffffffffffff, 0xffffffffffffffff, 0x3ff0000000000001, 0x4340000000000000]);
+    f64s
+}
+
 /// the complete value grid (distinct bit patterns)
 pub fn value_grid(tier: engine::Tier) -> Vec<DbValue> {
     let mut v: Vec<DbValue> = vec![];
@@ -69,8 +75,7 @@ pub fn value_grid(tier: engine::Tier) -> Vec<DbValue> {
     i64s.extend([i64::MIN + 1, i64::MAX - 1, 1 << 62, -(1 << 62), 0x7f, 0x80, -0x80, -0x81]);
     let mut u64s = U64_GRID.to_vec();
     u64s.extend([u64::MAX - 1, (1 << 63) + 1, 0x7f, 0x80]);
-    let mut f64s = F64_BITS.to_vec();
-    f64s.extend([0x7ff8000000000001, 0xfff0000000000001, 0x7ff7ffffffffffff, 0xffffffffffffffff, 0x3ff0000000000001, 0x4340000000000000]);
+    let f64s = float_bit_patterns();
     for x in &i64s {
         v.push(DbValue::I64(*x));
     }
@@ -236,13 +241,36 @@ pub fn run(args: &Args) -> i32 {
     let report = Report::new(args, "exploration");
     let grid = value_grid(args.tier);
     let n = grid.len();
+    let coll = Collector::default();
+    // The grid holds DbValues; a float enters the database through
+    // `DbValue::from(f64)` / `DbF64::from(f64)`. Those conversions are part of
+    // "reads back bit-for-bit": check them on every float bit pattern first.
+    let mut conversions = 0u64;
+    for b in float_bit_patterns() {
+        conversions += 1;
+        let got = match DbValue::from(f64::from_bits(b)) {
+            DbValue::F64(f) => Some(f.to_f64().to_bits()),
+            _ => None,
+        };
+        let got_vec = match DbValue::from(vec![f64::from_bits(b)]) {
+            DbValue::VecF64(f) if f.len() == 1 => Some(f[0].to_f64().to_bits()),
+            _ => None,
+        };
+        if got != Some(b) || got_vec != Some(b) {
+            coll.add(
+                "conversion|value|F64|from-f64|value-mismatch",
+                (8, b as usize & 0xffff),
+                &format!("DbValue::from(f64 with bits {b:#018x}) holds bits {got:?} (as one-element vector: {got_vec:?})"),
+                json!({"check": "C12", "mode": "conversion", "bits": format!("{b:#018x}")}),
+            );
+        }
+    }
     // work items: single-pair histories (variant x role x value) and bulk histories (variant x role)
     let singles = VARIANTS.len() * 2 * n;
     let bulks = VARIANTS.len() * 2;
     let evaluations = AtomicU64::new(0);
     let histories = AtomicU64::new(0);
     let distinct = DistinctCounter::default();
-    let coll = Collector::default();
     let scratches: Vec<Scratch> = (0..engine::workers()).map(|_| Scratch::new("c12")).collect();
     let roles = ["key", "value"];
     par_for(singles + bulks, args.seed, |w, item| {
@@ -300,6 +328,7 @@ pub fn run(args: &Args) -> i32 {
         json!("value grid (bytes and 1/2/3/4-byte-character strings of every byte length 0..=max_len, extreme and boundary integers, float bit patterns incl. signed zeros, infinities, subnormals, quiet/signalling NaNs with payloads, vectors of 0..=5 of those, two long vectors) x {key, value} x 6 variants; each stored alone on an element (single) and all together on one element (bulk); read back by select ids / select values by key / select keys: immediately, after 20+ further inserts, overwrites and removals, after reopen, after optimize_storage (+reopen); bit equality. evaluations = stored pairs x read-back phases; distinct_nontrivial = distinct (variant, role, mode, value bits)"),
     );
     report.set("grid_values", json!(n));
+    report.set("float_conversions_checked", json!(conversions));
     report.set("max_len", json!(args.tier.pick(MAX_LEN, 2 * MAX_LEN)));
     report.set("histories", json!(histories.load(Ordering::Relaxed)));
     report.set("variants", json!(VARIANTS));
@@ -314,6 +343,19 @@ fn replay(file: &str) -> i32 {
     let text = std::fs::read_to_string(file).unwrap_or_else(|e| engine::machinery_failure(&format!("replay file: {e}")));
     let v: Value = serde_json::from_str(&text).unwrap_or_else(|e| engine::machinery_failure(&format!("replay file: {e}")));
     let r = if v.get("replay").is_some() { &v["replay"] } else { &v };
+    if r["mode"].as_str() == Some("conversion") {
+        let b = u64::from_str_radix(r["bits"].as_str().unwrap_or("0x0").trim_start_matches("0x"), 16).unwrap_or(0);
+        let got = match DbValue::from(f64::from_bits(b)) {
+            DbValue::F64(f) => f.to_f64().to_bits(),
+            _ => 0,
+        };
+        println!("OBSERVED DbValue::from(f64 bits {b:#018x}) holds bits {got:#018x}");
+        if got != b {
+            println!("VIOLATION property=C12 replay={file}");
+            return 1;
+        }
+        return 0;
+    }
     let variant = VARIANTS.iter().position(|x| Some(*x) == r["variant"].as_str()).unwrap_or_else(|| engine::machinery_failure("unknown variant"));
     let role = if r["role"].as_str() == Some("key") { "key" } else { "value" };
     let value = DbValue::deserialize(&unhex(r["value_encoding"].as_str().unwrap_or(""))).unwrap_or_else(|e| engine::machinery_failure(&format!("value_encoding: {}", e.description)));
